@@ -172,6 +172,16 @@ pub enum Instruction {
     /// Pushes the value of register A as a named parameter to a child context.
     PushNamed(Parameter),
 
+    /// Pushes the value of register A as a named parameter to a child context.
+    /// Additionally, it pops the var path (implicitly uses `PopVarPath`) and keeps
+    /// the resolved path, so that the value of the parameter can be written back
+    /// to the variable that was passed, once the call is over.
+    PushNamedByRef(Parameter),
+
+    /// Same as `DequeueFromReturnStack`, it additionally pushes the path of
+    /// the by-ref argument, as it was resolved before the call, to the var path deque.
+    DequeueFromReturnStackWithPath,
+
     /// Pushes the value of register A as an unnamed parameter to a child context.
     /// Unnamed parameters are used by built-in functions/subs.
     PushUnnamedByVal,
